@@ -12,7 +12,7 @@ import z3
 from . import builtins as B
 from . import ops
 from .loader import ClassInfo, builtin_class
-from .values import (ARR, FALSE, INT, MAXLEN, NONE, TRUE, W, HObj, Lit, Unsupported, V, VBool, VBytes, VFloat,
+from .values import (tid, ARR, FALSE, INT, MAXLEN, NONE, TRUE, W, HObj, Lit, Unsupported, V, VBool, VBytes, VFloat,
                      VInt, VNone, VRef, VStr, VTuple, VUnion, View, as_const, byte_val, concat, fresh, iadd,
                      isub, mkbool, mkint, _iv)
 
@@ -836,7 +836,7 @@ def str_method(I, fv, args, kw):            # noqa: F811
         n = B.opaque_int(I, "split_len", [s, args[0]], 1, MAXLEN)
         lst = symlist.make(I, I.contracts, "str", "split", length=n)
         o = I.hobj(lst)
-        o.meta["elem_factory"] = lambda idx: I.opaque_str("split_elem", I.str_term(s).get_id(), args[0].c, B.vkey(I, idx))
+        o.meta["elem_factory"] = lambda idx: I.opaque_str("split_elem", tid(I.str_term(s)), args[0].c, B.vkey(I, idx))
         return lst
     if name == "encode":
         used(I, "str.encode(): UnicodeEncodeError iff not encodable (uninterpreted predicate); otherwise deterministic bytes")
@@ -849,7 +849,7 @@ def str_method(I, fv, args, kw):            # noqa: F811
     if name == "startswith" and isinstance(args[0], VStr) and args[0].c is not None:
         return B.opaque_bool(I, "str_startswith", [s, args[0]])
     if name in ("upper", "lower", "capitalize", "strip", "format"):
-        return I.opaque_str(name, I.str_term(s).get_id())
+        return I.opaque_str(name, tid(I.str_term(s)))
     raise Unsupported(f"str method {name}")
 
 
@@ -920,6 +920,8 @@ def str_of(I, a):                           # noqa: F811
 
 
 def ext_getitem(I, base, o, idx):           # noqa: F811
+    if o.meta.get("tag") == "json":
+        return json_getitem(I, base, o, idx)
     if o.meta.get("tag") == "xml_attrib":
         used(I, "Element.attrib[k]: KeyError iff the attribute is missing (uninterpreted predicate)")
         has = B.opaque_bool(I, "xml_has_attr", [base, idx])
@@ -983,3 +985,180 @@ _LIB.update({"asyncio.create_task": asyncio_create_task})
 _EXT_ATTR.update({"pset": pset_attr})
 _LIB_PREFIX.update({"pset.": pset_call})
 _EXT_MAKE.update({"pset": make_pset})
+
+
+# ===============================================================================================
+# httpx, json, urllib, secrets, hmac (cloud.py): opaque deterministic functions + assumed raise conditions
+# ===============================================================================================
+
+def make_client(I, cs, typ, name):
+    return ext_obj(I, "http_client")
+
+
+def client_factory_call(I, fv, o, args, kw):
+    c = ext_obj(I, "http_client")
+    I.hobj(c).meta["enter"] = c
+    return c
+
+
+def client_attr(I, ref, o, name):
+    from .interp import VBuiltin
+    return VBuiltin("http." + name, ref)
+
+
+def http_call(I, fv, args, kw):
+    from .interp import VCoro
+    name = fv.name.split(".")[-1]
+    if name in ("post", "get"):
+        used(I, "httpx client.post/get: a response, httpx.TimeoutException, or another httpx.HTTPError")
+
+        def thunk():
+            I.path.ghost.setdefault("events", {}).setdefault("http_" + name, []).append(VTuple(list(args) + [kw.get("headers", NONE), kw.get("content", NONE), kw.get("data", NONE)]))
+            k = I.path.choose(3, "http")
+            env_step(I)
+            if k == 1:
+                I.raise_py("httpx.TimeoutException", "timeout")
+            if k == 2:
+                I.raise_py("httpx.TransportError", "connect error")
+            return ext_obj(I, "http_response")
+        return VCoro(thunk)
+    raise Unsupported(f"http client method {name}")
+
+
+def response_attr(I, ref, o, name):
+    from .interp import VBuiltin
+    if name == "text":
+        return I.opaque_str("resp_text", ref.ref)
+    if name == "content":
+        return B.opaque_bytes(I, "resp_content", [ref], B.opaque_int(I, "resp_len", [ref], 0, MAXLEN).as_int())
+    return VBuiltin("httpresp." + name, ref)
+
+
+def response_call(I, fv, args, kw):
+    name = fv.name.split(".")[-1]
+    if name == "raise_for_status":
+        used(I, "response.raise_for_status(): HTTPStatusError (an HTTPError) or nothing")
+        if I.path.choose(2, "http_status") == 1:
+            I.raise_py("httpx.HTTPStatusError", "status")
+        return NONE
+    raise Unsupported(f"http response method {name}")
+
+
+def json_loads(I, fv, args, kw):
+    used(I, "json.loads: an arbitrary JSON value (uninterpreted, deterministic); json.JSONDecodeError otherwise")
+    s = I.resolve(args[0])
+    ok = B.opaque_bool(I, "json_ok", [s])
+    if not I.path.branch(ok.term(), "json"):
+        I.raise_py("json.JSONDecodeError", "bad json")
+    return ext_obj(I, "json", src=B.vkey(I, s), path=())
+
+
+def json_getitem(I, base, o, idx):
+    used(I, "JSON object access: KeyError/TypeError when the member is missing (uninterpreted), else a deterministic value")
+    has = B.opaque_bool(I, "json_has", [base, idx])
+    if not I.path.branch(has.term(), "json_key"):
+        I.raise_py("builtins.KeyError", "missing member")
+    key = ("json_member", base.ref, B.vkey(I, idx))
+    if key not in I.path.memo:
+        I.path.memo[key] = ext_obj(I, "json", src=o.meta["src"], path=o.meta["path"] + (B.vkey(I, idx),))
+    return I.path.memo[key]
+
+
+def json_dumps(I, fv, args, kw):
+    return I.opaque_str("json_dumps", B.vkey(I, args[0]) if not isinstance(args[0], VRef) else args[0].ref)
+
+
+def opaque_str_fn(tag):
+    def f(I, fv, args, kw):
+        return I.opaque_str(tag, *[B.vkey(I, a) if not isinstance(a, VRef) else ("r", a.ref) for a in args])
+    return f
+
+
+_LIB.update({"json.loads": json_loads, "json.dumps": json_dumps,
+             "secrets.token_hex": lambda I, fv, a, k: VStr(t=z3.Const(fresh("token_hex"), B.STR if hasattr(B, "STR") else None)) if False else I.opaque_str("token_hex", fresh("r")),
+             "secrets.token_urlsafe": lambda I, fv, a, k: I.opaque_str("token_urlsafe", fresh("r")),
+             "urllib.parse.urlencode": opaque_str_fn("urlencode"), "urllib.parse.unquote_plus": opaque_str_fn("unquote_plus"),
+             "os.getenv": lambda I, fv, a, k: (a[1] if len(a) > 1 else NONE)})
+_EXT_ATTR.update({"http_client": client_attr, "http_response": response_attr})
+_LIB_PREFIX.update({"http.": http_call, "httpresp.": response_call})
+_EXT_MAKE.update({"http_client": make_client})
+_EXT_CALL.update({"client_factory": client_factory_call})
+
+
+def ext_getitem2(I, base, o, idx):
+    if o.meta.get("tag") == "json":
+        return json_getitem(I, base, o, idx)
+    return None
+
+
+def make_client_factory(I, cs, typ, name):
+    return ext_obj(I, "client_factory")
+
+
+def make_lock(I, cs=None, typ=None, name="lock"):
+    return ext_obj(I, "lock")
+
+
+def make_json(I, cs, typ, name):
+    return ext_obj(I, "json", src=("input", fresh(name)), path=())
+
+
+def json_len(I, ref):
+    return B.opaque_int(I, "json_len", [ref], 0, MAXLEN)
+
+
+def json_child(I, ref, idx):
+    o = I.hobj(ref)
+    key = ("json_member", ref.ref, B.vkey(I, idx))
+    if key not in I.path.memo:
+        I.path.memo[key] = ext_obj(I, "json", src=o.meta["src"], path=o.meta["path"] + (B.vkey(I, idx),))
+    return I.path.memo[key]
+
+
+def ext_eq(I, a, oa, b, ob):                # noqa: F811
+    if a.ref == b.ref:
+        return B.TRUE
+    if oa.meta.get("tag") == "json" or ob.meta.get("tag") == "json":
+        x, y = (a, b) if a.ref <= b.ref else (b, a)
+        return B.opaque_bool(I, "json_eq", [x, y])
+    return mkbool(False)
+
+
+def eq_ext_value(I, ref, other):
+    """equality of an ext object (JSON value) with a plain value: uninterpreted, deterministic"""
+    return B.opaque_bool(I, "json_eq_val", [ref, other])
+
+
+def call_ext_object(I, fv, o, args, kwargs):        # noqa: F811
+    tag = o.meta.get("tag")
+    if tag == "namedtuple_type":
+        names = o.meta["fields"]
+        inst = HObj("ext", None, {}, meta={"tag": "namedtuple", "fields": names})
+        for n, v in zip(names, list(args)):
+            inst.fields[n] = v
+        for k, v in kwargs.items():
+            inst.fields[k] = v
+        return VRef(I.path.alloc(inst))
+    h = _EXT_CALL.get(tag)
+    if h is not None:
+        return h(I, fv, o, args, kwargs)
+    raise Unsupported(f"call of ext object {tag}")
+
+
+_LIB.update({"asyncio.Lock": lambda I, fv, a, k: make_lock(I)})
+_EXT_MAKE.update({"client_factory": make_client_factory, "lock": make_lock, "json": make_json})
+
+
+def make_http_response(I, cs, typ, name):
+    return ext_obj(I, "http_response")
+
+
+def int_of_ext(I, a):
+    used(I, "int(json value): ValueError/TypeError iff it is not numeric (uninterpreted predicate); otherwise a deterministic integer")
+    ok = B.opaque_bool(I, "json_int_ok", [a])
+    if not I.path.branch(ok.term(), "int_of_json"):
+        I.raise_py("builtins.ValueError", "invalid literal for int()")
+    return B.opaque_int(I, "json_int", [a])
+
+
+_EXT_MAKE.update({"http_response": make_http_response})
